@@ -360,7 +360,7 @@ var memCountsBig = []int{4096, 9999, 10001, 16384, 20000, 32768, 65535, 65536}
 // fixed bijective mixer (splitmix64 finalizer), so that rapid's preference for
 // small and extreme values does not carry over. Still a pure function of the draw.
 func unbiased(t *rapid.T, label string, n int) int {
-	x := rapid.Uint64().Draw(t, label)
+	x := rapid.Uint64().Draw(t, label) + 0x9e3779b97f4a7c15 // (0 is a fixed point of the mixer and rapid's favourite draw)
 	x ^= x >> 30
 	x *= 0xbf58476d1ce4e5b9
 	x ^= x >> 27
@@ -397,7 +397,7 @@ func genMem(dec string, bigOneIn int) func(t *rapid.T) Input {
 			n = rapid.SampledFrom(memCountsBig).Draw(t, "bigcount")
 		case c == 1:
 			n = unbiased(t, "n", maxN+1)
-		case c < 2+bigOneIn/2:
+		case c < 2+bigOneIn/8:
 			n = unbiased(t, "n", 3001)
 		default:
 			n = rapid.SampledFrom(memCountsSmall).Draw(t, "count")
